@@ -25,6 +25,8 @@ def apply_step(proc, step):
         elif step["op"] == "delete":
             for _ in proc.delete_nodes(step["dot"]):
                 pass
+        elif step["op"] == "alias":
+            proc.alias_nodes(step["dot"], step["adot"], anchor_name=step["name"])
         return "ok", ""
     except YAMLPathException as ex:
         name = type(ex).__name__
@@ -106,7 +108,7 @@ def replay_history(rec, style="block", plain=False):
     d = diff_tables(got, rec["final"])
     if d:
         return ("document", "after %s on %s: %s | got %s" % (
-            "; ".join("%s %s%s" % (s["op"], s["dot"], ("=" + s["v"]) if s["op"] != "delete" else "") for s in hist),
+            "; ".join("%s %s%s" % (s["op"], s["dot"], ("=" + s["v"]) if s["op"] in ("set_must", "set_opt") else (" -> *%s %s" % (s["adot"], s["name"])) if s["op"] == "alias" else "") for s in hist),
             text.replace("\n", "|"), d, absdoc.concretise(got, "flow").strip()))
     # the edited document serialises to YAML which reloads (strict loader) to the same data
     try:
@@ -128,8 +130,11 @@ def _work(items):
     return out
 
 
-def run_histories(ctx, ops, pid, cfgs):
-    """Shared driver: run MC_Edit, replay every history whose last step is in `ops`."""
+def run_histories(ctx, ops, pid, cfgs, info_ops=()):
+    """Shared driver: run MC_Edit, replay every history whose last step is in `ops`.
+
+    Histories ending in one of `info_ops` (operations outside the listed properties, e.g. alias_nodes) are replayed
+    too, but a disagreement there is only counted (coverage["beyond_properties_agreement"])."""
     from harness import querycorpus
     import os
     recs = []
@@ -138,13 +143,21 @@ def run_histories(ctx, ops, pid, cfgs):
         r = core.run_tlc(ctx, "MC_Edit", cfg, env={"CASES_OUT": f}, timeout=7200)
         if r["violated"]:
             raise core.MachineryError("%s violated in %s (see %s)" % (r["violated"], cfg, r["log"]))
-        recs.extend(x for x in core.read_csv_json_lines(f) if x["hist"][-1]["op"] in ops)
+        recs.extend(x for x in core.read_csv_json_lines(f) if x["hist"][-1]["op"] in ops or x["hist"][-1]["op"] in info_ops)
         os.remove(f)
     items = [(rec, querycorpus.variant_of(rec["doc0"], ctx.seed + len(rec["hist"]), ctx.quick)) for rec in recs]
     n = 0
     nontrivial = set()
     prefix = 0
+    beyond = {"agree": 0, "differ": 0, "first_difference": None}
     for rec, style, plain, r in querycorpus.pmap(_work, items, chunk=200):
+        if rec["hist"][-1]["op"] in info_ops:
+            if r is None:
+                beyond["agree"] += 1
+            elif r[0] != "prefix":
+                beyond["differ"] += 1
+                beyond["first_difference"] = beyond["first_difference"] or r[1][:600]
+            continue
         n += 1
         nontrivial.add(json.dumps(rec["doc0"]) + "|".join(s["op"] + s["dot"] + s["v"] for s in rec["hist"]))
         if r is None:
@@ -166,6 +179,10 @@ def run_histories(ctx, ops, pid, cfgs):
         "samples": [recs[len(recs) // 2]] if recs else [],
         "trusted_base": ["TLC 1.8", "spec/YEdit.tla as the plain-data model", "harness/absdoc.py abstraction"],
     })
+    if info_ops:
+        beyond["operations"] = sorted(info_ops)
+        beyond["note"] = "single-step histories of operations outside the listed properties (YEdit.AliasStep); informational, never a verdict"
+        ctx.coverage["beyond_properties_agreement"] = beyond
     return recs
 
 
